@@ -5,7 +5,7 @@ CONSTANTS
  Mode = "tws"
  InitTree <- D2
  InitArchive <- D2
- EditVals <- EditsC11
+ EditVals <- EditsC11q
  EditSides = {"alpha", "beta"}
  EventSides = {"alpha"}
  MaxEdits = 1
@@ -15,6 +15,7 @@ CONSTANTS
  MaxBreaks = 0
  Export = FALSE
  RunToBlock = FALSE
+ TrackInterrupts = FALSE
  Mut = "none"
 SPECIFICATION Spec
 INVARIANTS InvPausedQuiet InvFlushFresh InvPauseSurvives InvTerminatedGone InvReset InvC11 InvNeverPropagated InvLoopShape InvStatusMachine InvRecycle
